@@ -4,6 +4,6 @@ From PV Require Import Lib.ExtractBase Lib.AmmoBytes Lib.AmmoDecimal Lib.AmmoLin
 Extraction Language OCaml.
 Extraction "extracted/C07_model.ml" xb_types max_token cfg0 build cycle_take
   uri_decode render_uri uri_entries wf_uitem
-  uripost_decode render_uripost uripost_entries
-  raw_decode render_raw raw_entries
+  uripost_decode render_uripost uripost_entries wf_pitem
+  raw_decode render_raw raw_entries wf_ritem
   json_stream_decode json_array_decode entity_entry.
